@@ -20,7 +20,7 @@ type Case struct {
 }
 
 func genCase(t *rapid.T) Case {
-	g := &yg.G{T: t, BackslashR: !fw.Known("c08.backslash-r-substituted")}
+	g := &yg.G{T: t, BackslashR: !fw.Known("c08.backslash-r-substituted"), Abut: !fw.Known("c08.comment-abuts-unquoted")}
 	s := &yg.Stmt{Kw: []string{"description", "x:ext", "reference", "y:note"}[g.Pick(4, "kw")]}
 	// place the keyword at a generated column: blanks / tabs / a line break before it
 	lead := []string{"", " ", "    ", "\t", "\n", "\n    ", "\n\t\t", "        ", "  \t  ", "/* c */ ", "\r\n   "}[g.Pick(11, "lead")]
@@ -35,6 +35,7 @@ func genCase(t *rapid.T) Case {
 		}
 	}
 	s.T2 = g.Trivia(s.Pieces[len(s.Pieces)-1].Q == "u", 2)
+	s.Abut = s.Pieces[len(s.Pieces)-1].Q == "u" && yg.Abuts(s.Pieces[len(s.Pieces)-1].Raw, s.T2)
 	return Case{Stmt: s, Wrapped: rapid.Bool().Draw(t, "wrapped")}
 }
 
@@ -49,6 +50,9 @@ func classify(s *yg.Stmt) (labels []string, nontrivial bool) {
 	if len(s.Pieces) >= 2 {
 		add("concat")
 		nontrivial = true
+	}
+	if s.Abut {
+		add("comment-abuts-unquoted")
 	}
 	for _, p := range s.Pieces {
 		add("piece:" + p.Q)
@@ -289,7 +293,7 @@ var typedKws = []string{"unique", "unique", "unique", "key", "key", "range", "le
 var typedSeps = []string{" ", " ", "  ", "\t", " \t ", "\n", "\n    ", "\n\t", "\r\n  ", "   \n          ", "\n\n  ", "      "}
 
 func genTyped(t *rapid.T) TypedCase {
-	g := &yg.G{T: t}
+	g := &yg.G{T: t, Abut: true}
 	kw := typedKws[g.Pick(len(typedKws), "kw")]
 	words := typedWords[kw]
 	n := 1 + g.Pick(3, "nwords")
@@ -340,6 +344,7 @@ func genTyped(t *rapid.T) TypedCase {
 		start = end
 	}
 	s.T2 = g.Trivia(s.Pieces[len(s.Pieces)-1].Q == "u", 2)
+	s.Abut = s.Pieces[len(s.Pieces)-1].Q == "u" && yg.Abuts(s.Pieces[len(s.Pieces)-1].Raw, s.T2)
 	c.Stmt = s
 	return c
 }
